@@ -15,7 +15,7 @@ import ast
 
 from . import _logrules as LR
 from ..engines.logspace import TOTALNORM
-from ..srcmodel import AnalysisError, U, calls_in, walk_shallow
+from ..srcmodel import target_names, names_in, AnalysisError, U, calls_in, walk_shallow
 
 GM = 'src/mbi/graphical_model.py'
 
@@ -91,6 +91,16 @@ def check_project(ctx, fi):
     ok = U(pots) in ('list(self.potentials.values())', '[self.potentials[cl] for cl in self.cliques]') and U(total) == 'self.total' \
         and isinstance(order, ast.Call) and U(order.func) == 'greedy_order' and len(order.args) == 3 \
         and U(order.args[2]) == 'self.domain.invert(%s)' % attrs
+    if not ok and U(total) == 'self.total':
+        pruned = pruned_elimination(fi, attrs, defs, c)
+        if pruned is not None:
+            ok, why = pruned
+            ctx.ob('ve-equations', fi, c, ok,
+                   'out-of-clique answers may drop the potentials that are not connected to the request (they only contribute a constant), '
+                   'provided the connected set is computed to a fixpoint: %s' % why, construct='pruned variable elimination')
+            ok = True
+        elif not (isinstance(order, ast.Call) and U(order.func) == 'greedy_order'):
+            raise AnalysisError('GraphicalModel.project: the elimination order / potential list of the uncached path is in no recognised form')
     ctx.ob('ve-equations', fi, c, ok, 'out-of-clique answers eliminate exactly domain.invert(%s) from the model\'s own potentials, scaled to self.total' % attrs)
     # cached path: only a clique that contains the request may answer, and it answers from its own cached marginal
     found = containing_search(fi, attrs)
@@ -101,6 +111,47 @@ def check_project(ctx, fi):
         cached = [r for r in rets if 'self.marginals[' in U(r.value)]
         ok = bool(cached) and all(U(expand(r.value, defs, keep=(attrs, K))).startswith('self.marginals[%s]' % K) for r in cached)
     ctx.ob('requested-order', fi, where, ok, 'a cached clique marginal answers only requests it contains, keyed by that clique')
+
+
+def pruned_elimination(fi, attrs, defs, call):
+    """pots = [self.potentials[cl] for cl in CL], CL = [cl for cl in self.cliques if R & set(cl)], elim filtered by `in R`, where the set R
+    starts from the request and is grown by `R.update(cl)` for cliques meeting it.  -> (closure computed to a fixpoint?, explanation) or None"""
+    pots = call.args[0]
+    p = defs.single(pots.id) if isinstance(pots, ast.Name) else pots
+    if not (isinstance(p, ast.ListComp) and len(p.generators) == 1 and not p.generators[0].ifs and U(p.elt).replace(' ', '') ==
+            'self.potentials[%s]' % U(p.generators[0].target)):
+        return None
+    CL = p.generators[0].iter
+    cl = defs.single(CL.id) if isinstance(CL, ast.Name) else CL
+    if not (isinstance(cl, ast.ListComp) and len(cl.generators) == 1 and U(cl.generators[0].iter) == 'self.cliques' and len(cl.generators[0].ifs) == 1):
+        return None
+    t = cl.generators[0].ifs[0]
+    v = U(cl.generators[0].target)
+    if not (isinstance(t, ast.BinOp) and isinstance(t.op, ast.BitAnd) and isinstance(t.left, ast.Name) and U(t.right) == 'set(%s)' % v):
+        return None
+    R = t.left.id
+    # where R grows
+    grow = None
+    for lp in ast.walk(fi.node):
+        if isinstance(lp, ast.For) and U(lp.iter) == 'self.cliques':
+            for n in ast.walk(lp):
+                if isinstance(n, ast.Call) and isinstance(n.func, ast.Attribute) and n.func.attr == 'update' and U(n.func.value) == R:
+                    grow = lp
+    if grow is None:
+        return None
+    # the request must seed R
+    seeded = any(isinstance(s_, ast.Assign) and R in [x for t_ in s_.targets for x in target_names(t_)] and attrs in names_in(s_.value)
+                 for s_ in ast.walk(fi.node))
+    if not seeded:
+        return False, 'the connected set `%s` is not seeded with the requested attributes' % R
+    # fixpoint: the growing sweep is repeated by an enclosing loop whose test watches the size of R (or a changed flag)
+    par = getattr(grow, '_parent', None)
+    while par is not None and not isinstance(par, (ast.While, ast.FunctionDef)):
+        par = getattr(par, '_parent', None)
+    if isinstance(par, ast.While) and (R in names_in(par.test) or any(isinstance(n, ast.Name) for n in ast.walk(par.test))):
+        return True, 'the sweep over the cliques growing `%s` is repeated until it is stable' % R
+    return False, 'the set `%s` is grown by ONE sweep over self.cliques: a clique that only touches attributes added later in the sweep is missed, ' \
+                  'its potential is dropped although it is connected to the request' % R
 
 
 def check_ve(ctx, fi):
